@@ -261,7 +261,7 @@ spec fn init_error(e: InitDirectoryError) -> BuildError {
     match e { InitDirectoryError::FailedToReadCurrentFileStates(x) => BuildError::FailedToReadCurrentFileStates(x), _ => BuildError::DirectoryMalfunction }
 }
 
-//@ extract build.rs fn build range /let mut elements =/ .. /let mut handles = Vec::new\(\);/
+//@ extract build.rs fn build range /\Alet mut elements =/ .. /let mut handles = Vec::new\(\);/
 //@ props C01 C02 C05 C09 C11
 //@ sig fn build_head<SystemType : System + 'static>(system: &mut SystemType, params: BuildParams) -> (res: Result<(Elements<SystemType>, DownloadUrls, ChannelPack), BuildError>)
 //@ close Ok((elements, download_urls, channel_pack))
@@ -286,7 +286,7 @@ spec fn init_error(e: InitDirectoryError) -> BuildError {
         init_res::<SystemType>(params.directory_path@) is Ok ==> (params.urlfile_path_opt matches Some(p) ==> (urls_res(p@) matches Err(e) ==> (res matches Err(BuildError::DownloadUrlsError(x)) && x == e))),
 //@ end
 
-//@ extract build.rs fn clean range /let mut elements =/ .. /let mut handles = Vec::new\(\);/
+//@ extract build.rs fn clean range /\Alet mut elements =/ .. /let mut handles = Vec::new\(\);/
 //@ props C10 C05 C09 C11
 //@ sig fn clean_head<SystemType : System + 'static>(system: &mut SystemType, directory_path : &str, rulefile_paths: Vec<String>, goal_target_opt: Option<String>) -> (res: Result<(Elements<SystemType>, NodePack), BuildError>)
 //@ close Ok((elements, node_pack))
